@@ -14,23 +14,23 @@ import (
 )
 
 type SEnv struct {
-	vc      *VC
-	fr      *Frame // naming context: function, package, locals
-	fn      *ssa.Function
-	cur     *State
-	old     *State
-	vars    map[string]Val
-	results []Val
-	ct      *Contract
-	block   *ssa.BasicBlock // current block (for local lookup), may be nil
-	depth   int
-	qfacts  *[]Term
-	qstack  []*qlevel
-	locSt   *State // state in which local variables are read (old() does not rewind locals)
-	pkgCtx  *types.Package // package context override (bodies of spec funcs of another package)
-	assumeMode bool // the formula being evaluated will be assumed, not proved
-	inSpecFunc bool // evaluating the body of a spec func: only its parameters and package-level names are visible
-	localsFirst bool // identifiers denote current values of locals/params (loop invariants, call-site asserts)
+	vc          *VC
+	fr          *Frame // naming context: function, package, locals
+	fn          *ssa.Function
+	cur         *State
+	old         *State
+	vars        map[string]Val
+	results     []Val
+	ct          *Contract
+	block       *ssa.BasicBlock // current block (for local lookup), may be nil
+	depth       int
+	qfacts      *[]Term
+	qstack      []*qlevel
+	locSt       *State         // state in which local variables are read (old() does not rewind locals)
+	pkgCtx      *types.Package // package context override (bodies of spec funcs of another package)
+	assumeMode  bool           // the formula being evaluated will be assumed, not proved
+	inSpecFunc  bool           // evaluating the body of a spec func: only its parameters and package-level names are visible
+	localsFirst bool           // identifiers denote current values of locals/params (loop invariants, call-site asserts)
 }
 
 var tyBool = types.Typ[types.Bool]
@@ -1007,6 +1007,9 @@ func (e *SEnv) call(x *SCall) Val {
 		case "$idx":
 			k, _ := strconv.Atoi(x.Args[0].(*SInt).V)
 			return intVal(e.fr.rangeIndex(e.localState(), k))
+		case "$rng":
+			k, _ := strconv.Atoi(x.Args[0].(*SInt).V)
+			return e.fr.rangeValue(e.localState(), k)
 		case "$seen":
 			k, _ := strconv.Atoi(x.Args[0].(*SInt).V)
 			return boolVal(tSel(e.fr.rangeSeen(e.localState(), k), vc.keyTerm(arg(1))))
